@@ -367,7 +367,7 @@ fn seq_family(prop: &str) -> i32 {
         let img = images::lib_formatted(gw.cluster_bits, gw.order, gw.vsize());
         let (cs, tb) = (gw.cs(), gw.tb());
         let w = |off: u64, len: u64, tag: u32| Op::Write { off, len: len as usize, tag };
-        let alpha = vec![w(0, cs, 1), w(64 * tb, cs, 2), w(129 * tb + cs, cs, 3), w(65 * tb - cs, 2 * cs, 4), Op::Discard { off: 64 * tb, len: cs }, Op::Flush, Op::Reopen];
+        let alpha = vec![w(0, cs, 1), w(64 * tb, cs, 2), w(129 * tb + cs, cs, 3), w(65 * tb - cs, 2 * cs, 4), w(63 * tb, cs, 5), Op::Discard { off: 64 * tb, len: cs }, Op::Flush, Op::Reopen];
         qcow2_rs::verif::set_order_salt(0);
         let mut sc = SeqScenario::new(img.clone(), gw.cfg_small(), gw.cfg_alt(), "small", alpha, oracles.clone());
         sc.full_sweep = false;
@@ -812,6 +812,56 @@ pub fn crash_family(prop: &str) -> i32 {
                 scen.push(j);
             }
         }
+    }
+    {
+        // an L1 table of several flush blocks: first writes below the last entry of a block
+        let gw = crate::extra::g9_wide(130);
+        let img = images::lib_formatted(gw.cluster_bits, gw.order, gw.vsize());
+        let (cs, tb) = (gw.cs(), gw.tb());
+        let w = |off: u64, len: u64, tag: u32| Op::Write { off, len: len as usize, tag };
+        let alpha = vec![w(0, cs, 1), w(63 * tb, cs, 5), w(64 * tb, cs, 2), w(127 * tb + cs, cs, 3), Op::Flush, Op::Sync];
+        let mut sc = SeqScenario::new(img, gw.cfg_small(), gw.cfg_alt(), "small", alpha, oracles.clone());
+        sc.full_sweep = false;
+        let lim = BfsLimits { depth: if thorough { 5 } else { 3 }, max_states: 3_000_000, deadline: deadline_in(if thorough { 200 } else { 8 }) };
+        let st = bfs(&sc, &lim, &mut viol);
+        states += st.states;
+        trans += st.transitions;
+        windows += st.counters[1];
+        images_n += st.counters[2];
+        distinct += st.counters[3];
+        inexhaustive += st.counters[4];
+        if st.capped || st.depth_completed < st.depth_target {
+            all_complete = false;
+        }
+        let mut j = stats_json(&format!("{} (130 L2 tables)", crate::hist::Scenario::name(&sc)), &st);
+        j["crash_images"] = json!(st.counters[2]);
+        j["distinct_images_checked"] = json!(st.counters[3]);
+        scen.push(j);
+    }
+    {
+        // creation of the refcount block behind the last entry of a refcount-table flush block
+        let gw = crate::extra::g9_wide(140);
+        let img = crate::extra::rb63_edge_image();
+        let cs = gw.cs();
+        let w = |off: u64, len: u64, tag: u32| Op::Write { off, len: len as usize, tag };
+        let alpha = vec![w(8000 * cs, cs, 1), w(8001 * cs, cs, 2), w(8010 * cs, 3 * cs, 3), Op::Flush, Op::Sync];
+        let mut sc = SeqScenario::new(img, gw.cfg_small(), gw.cfg_alt(), "small", alpha, oracles.clone());
+        sc.full_sweep = false;
+        let lim = BfsLimits { depth: if thorough { 4 } else { 3 }, max_states: 3_000_000, deadline: deadline_in(if thorough { 200 } else { 8 }) };
+        let st = bfs(&sc, &lim, &mut viol);
+        states += st.states;
+        trans += st.transitions;
+        windows += st.counters[1];
+        images_n += st.counters[2];
+        distinct += st.counters[3];
+        inexhaustive += st.counters[4];
+        if st.capped || st.depth_completed < st.depth_target {
+            all_complete = false;
+        }
+        let mut j = stats_json(&crate::hist::Scenario::name(&sc), &st);
+        j["crash_images"] = json!(st.counters[2]);
+        j["distinct_images_checked"] = json!(st.counters[3]);
+        scen.push(j);
     }
     run.add_all(viol);
     // crash states of concurrent histories (C04 quantifies over schedules too)
@@ -1335,8 +1385,10 @@ pub fn growth_check() -> i32 {
     let rb_alpha = vec![w(100 * cs, cs, 1), w(101 * cs, cs, 2), w(110 * cs, 3 * cs, 3), w(120 * cs, cs, 4), w(2 * tb, cs, 5), Op::Discard { off: 0, len: 2 * cs }, Op::Flush, Op::Sync, Op::Reopen];
     let rt_alpha = vec![w(8000 * cs, cs, 1), w(8001 * cs, cs, 2), w(8010 * cs, 3 * cs, 3), w(8100 * cs, cs, 4), w(139 * tb, cs, 5), Op::Discard { off: 0, len: 2 * cs }, Op::Flush, Op::Sync, Op::Reopen];
     let l1_alpha = vec![w(tb, cs, 1), w(64 * tb, cs, 2), w(65 * tb + cs, 2 * cs, 3), w(130 * tb, cs, 4), w(191 * tb, cs, 5), Op::Read { off: 64 * tb, len: cs as usize }, Op::Flush, Op::Sync, Op::Reopen];
+    let rb63_alpha = vec![w(8000 * cs, cs, 1), w(8001 * cs, cs, 2), w(8010 * cs, 3 * cs, 3), Op::Flush, Op::Sync, Op::Reopen];
     let plans: Vec<(ImageSet, Vec<Op>, usize, u64, bool)> = vec![
         (crate::extra::rb_edge_image(), rb_alpha, if thorough { 5 } else { 3 }, if thorough { 300 } else { 10 }, true),
+        (crate::extra::rb63_edge_image(), rb63_alpha, if thorough { 4 } else { 3 }, if thorough { 300 } else { 10 }, false),
         (crate::extra::rt_edge_image(), rt_alpha, if thorough { 4 } else { 3 }, if thorough { 600 } else { 15 }, false),
         (crate::extra::short_l1_image(), l1_alpha, if thorough { 4 } else { 3 }, if thorough { 600 } else { 15 }, false),
         // short L1 whose cluster has room for the missing entries: extension in place
